@@ -33,6 +33,7 @@ func init() {
 			{ID: "C01.7", Desc: "staleness relaxed only under request max-stale", Run: ruleC01_7, MinSites: 1},
 			{ID: "C01.8", Desc: "an unparseable Date is repaired like a missing one; synthesised Date is UTC", Run: func(c *Ctx) { ruleDateRepair(c, "C01.8") }, MinSites: 1},
 			{ID: "C01.12", Desc: "Cache-Control is read through all of its field lines (max-age on a second line counts)", Run: func(c *Ctx) { ruleRLIST(c, "C01.12", "Cache-Control") }, MinSites: 1},
+			{ID: "C01.14", Desc: "an Expires field that is present but empty or invalid is an explicit expiry (no heuristic lifetime)", Run: func(c *Ctx) { ruleExpiresPresence(c, "C01.14") }, MinSites: 1},
 			{ID: "C01.13", Desc: "the 304 merge carries the validation response's Age into the stored response", Run: func(c *Ctx) { ruleMergeFilter(c, "C01.13") }, MinSites: 1},
 			{ID: "C01.11", Desc: "Expires-based lifetime is Expires minus Date", Run: func(c *Ctx) { ruleExpiresMinusDate(c, "C01.11") }, MinSites: 1},
 			{ID: "C01.10", Desc: "sums of ages and lifetimes saturate", Run: func(c *Ctx) { ruleDurationSums(c, "C01.10") }, MinSites: 2},
